@@ -36,8 +36,13 @@ def dechunk(body, raw):
     pos = raw.find(b"\r\n")
     if pos < 0:
         return (body, raw, False)
-    n = hexval(sub(raw, 0, pos))
-    rest = sub(raw, pos + 2, len(raw) - pos - 2)
+    return dechunk_step(body, raw, sub(raw, 0, pos), sub(raw, pos + 2, len(raw) - pos - 2))
+
+
+@spec(args=[Bytes, Bytes, Bytes, Bytes], ret=ChunkState, fuel=1)
+def dechunk_step(body, raw, line, rest):
+    """one chunk whose size line and the bytes after it have been cut out of raw"""
+    n = hexval(line)
     if n + 2 > len(rest):
         return (body, raw, False)
     if n == 0:
